@@ -323,7 +323,7 @@ class Fourier:
 
         # If freq_coarse is not exactly freq_required, we use cubic spline to
         # interpolate from fmin to fmax.
-        if self.freq_coarse.size != self.freq_required.size:
+        if not np.array_equal(self.freq_coarse, self.freq_required):
 
             Spline = sp.interpolate.InterpolatedUnivariateSpline
             int_real = Spline(np.log(self.freq_compute),
